@@ -4,7 +4,7 @@ from .. import simprop
 ID = "C12"
 FAMILY = "C12"
 VARIANTS = ("asan",)
-BUDGET = {"quick": dict(examples=16000, seconds=60), "thorough": dict(examples=400000, seconds=540)}
+BUDGET = {"quick": dict(examples=80000, seconds=55), "thorough": dict(examples=2000000, seconds=540)}
 NONTRIVIAL = {'blocked-oput', 'blocked-kput', 'blocked-oget', 'pq-cancel', 'blocked-kget', 'pq-reprio'}
 PROFILES = [(4, 'queue'), (1, 'mixed')]
 RULE = ("Hypothesis-generated scenarios (profile queue 80%, mixed 20%): object queues and priority queues of capacity 1, small, unlimited; values incl. 0 (NULL) and duplicates; blocking on both ends; interrupts / timeouts / stops of blocked producers and consumers; cancel / reprioritise / position by handle. Oracle: model sequence (object queue: order of successful put returns) / model map (priority queue: max by priority then handle); every successful get delivers exactly the model's next object, a failed get delivers NULL, length equals the model size after every event and never exceeds capacity, cancel / position / handles agree with the model. Non-trivial = a getter or putter had to wait, or a cancel / reprioritise hit a queued object. distinct = SHA-1 of the scenario text.")
